@@ -185,8 +185,10 @@ pub fn gen_seq(seed: u64, ncases: u64, maxlen: u64, zero_ok: bool, rebuilds: boo
         out.push(format!("new {price}"));
         if r.chance(1, 8) {
             // a generator restored from its serialized form, counter at a boundary
-            let c = *r.pick(&[(1u64 << 32) - 2, (1u64 << 53) - 1, (1u64 << 63) - 2, 1u64 << 16, 999_999]);
-            out.push(format!("newgen {c}"));
+            // … or built by the constructor (counter 0); over the standard, the nil, the all-ones or a random namespace
+            let c = *r.pick(&[(1u64 << 32) - 2, (1u64 << 53) - 1, (1u64 << 63) - 2, 1u64 << 16, 999_999, 0, 0]);
+            let ns = match r.below(4) { 0 => "std".to_string(), 1 => "nil".to_string(), 2 => "max".to_string(), _ => format!("{:x}", ((r.next() as u128) << 64) | r.next() as u128) };
+            out.push(format!("newgen {c} {ns}"));
         }
         let mut total: u128 = 0; // everything ever supplied (upper bound for sums)
         for _ in 0..len {
